@@ -47,6 +47,9 @@ const (
 	_binaryShortLenTagMin = byte(0x20) // 1-byte length binary min
 	_binaryShortLenTagMax = byte(0x2f) // 1-byte length binary max
 	_binaryShortTagMaxLen = int(_binaryShortLenTagMax - _binaryShortLenTagMin)
+
+	_binaryMiddleLenTagMin = byte(0x34) // 2-byte header binary (length 0-1023) min
+	_binaryMiddleLenTagMax = byte(0x37) // 2-byte header binary (length 0-1023) max
 )
 
 var (
@@ -155,21 +158,34 @@ func binaryShortTag(tag byte) bool {
 	return tag >= _binaryShortLenTagMin && tag <= _binaryShortLenTagMax
 }
 
+// [x34-x37] b0: final chunk of length 0-1023
+func binaryMiddleTag(tag byte) bool {
+	return tag >= _binaryMiddleLenTagMin && tag <= _binaryMiddleLenTagMax
+}
+
 func binaryChunkTag(tag byte) bool {
 	return tag == _binaryFinalChunk || tag == _binaryChunk || tag == _binaryChunkLegacy
 }
 
 func binaryEndTag(tag byte) bool {
-	return tag == _binaryFinalChunk || binaryShortTag(tag)
+	return tag == _binaryFinalChunk || binaryShortTag(tag) || binaryMiddleTag(tag)
 }
 
 func binaryTag(tag byte) bool {
-	return binaryShortTag(tag) || binaryChunkTag(tag)
+	return binaryShortTag(tag) || binaryMiddleTag(tag) || binaryChunkTag(tag)
 }
 
 func getBinaryLen(reader ByteRuneReader, tag byte) (int, error) {
 	if binaryShortTag(tag) {
 		return int(tag - _binaryShortLenTagMin), nil
+	}
+
+	if binaryMiddleTag(tag) {
+		b0, err := readTag(reader)
+		if err != nil {
+			return 0, err
+		}
+		return int(tag-_binaryMiddleLenTagMin)<<8 + int(b0), nil
 	}
 
 	bs := make([]byte, 2)
